@@ -163,13 +163,16 @@ func (c *clientApp) init() (err error) {
 		return
 	}
 
-	// Configure the file store to be scanned
+	// Configure the file store to be scanned.  It gets copies of the include
+	// and ignore lists: the store appends to its ignore list (the standard
+	// ignores, the patterns of this source's non-http tags) and sources that
+	// inherit include / ignore share the configuration's slices.
 	store := &store.Local{
 		Root:           filepath.Clean(c.conf.OutDir),
 		MinAge:         c.conf.MinAge,
 		IncludeHidden:  c.conf.IncludeHidden,
-		Include:        c.conf.Include,
-		Ignore:         c.conf.Ignore,
+		Include:        append([]*regexp.Regexp(nil), c.conf.Include...),
+		Ignore:         append([]*regexp.Regexp(nil), c.conf.Ignore...),
 		FollowSymlinks: c.dirOutFollow,
 	}
 	store.AddStandardIgnore()
